@@ -133,7 +133,7 @@ def draw_value(rng, kind, special=None, maxlen=8):
         if kind in ('q', 'dq', 'sq', 'xml') and v.strip() != v and rng.random() < 0.5: v = v.strip() or 'a'
         if not has_key(v): return v
 
-MASKS = ['***', '***', '***', '***', '?', 'XXXX', '#', '%s', '[masked]', '*']
+MASKS = ['***', '***', '***', '***', '?', 'XXXX', '#', '%s', '[masked]', '*', '0']
 
 def mk_case(rng, items, secret=None, pre=None, post=None):
     """items: list of [head, value, tail]; neutral words between, before and after"""
@@ -300,8 +300,37 @@ def multiline_cases(rng, n_cases):
         if rng.random() < 0.5: segs.append('\n' + neutral(rng, 2))
         yield {'op': 'mask', 'segs': segs, 'secret': rng.choice(['***', '***', '?', 'XXXXXXXX'])}
 
+# masks that are empty / white space ("falsy-looking"): the value must still be replaced by exactly that mask.
+# With such a mask the masked bare / --k / k --flag forms leave `key=` (resp. the flag) directly followed by white space
+# and the next word, which the same pattern reads as a new value: on the unchanged tree a second application (and, for
+# key texts containing two keys, the second key's pass) masks that word too.  So for these three forms the idempotence
+# clause is not demanded with a weak mask, and nested key texts are skipped; every other form is judged in full.
+WEAK_MASKS = ['', '', ' ', '\t', '  ']
+UNQUOTED = ('bare', 'bare_sp', 'dd', 'cmd2')
+
+def nested_key_text(K):
+    low = K.lower()
+    return sum(1 for k in SPEC_KEYS if k in low) > 1
+
+def weak_mask_cases(rng, n_cases):
+    i = 0
+    while i < n_cases:
+        r = RENDERINGS[i % len(RENDERINGS)] if i < 4 * len(RENDERINGS) else rng.choice(RENDERINGS)
+        k = rng.choice(SPEC_KEYS); how = rng.randrange(4)
+        K = casing(rng, k, how) + digits(rng, how)
+        i += 1
+        if r in UNQUOTED and nested_key_text(K): continue
+        c = mk_case(rng, [rendering(rng, r, K, lambda kind: draw_value(rng, kind))], secret=rng.choice(WEAK_MASKS))
+        c['r'] = r
+        yield c
+    for r in RENDERINGS:            # the default mask, not passed at all
+        c = mk_case(rng, [rendering(rng, r, rng.choice(['password', 'Token', 'SSLKEY']), lambda kind: draw_value(rng, kind))], secret='***')
+        c['default_secret'] = True
+        yield c
+
 def gen_cases(rng, tier):
     yield from systematic(rng, tier)
+    yield from weak_mask_cases(rng, 600 if tier == 'quick' else 6000)
     yield from overlap_cases(rng, 700 if tier == 'quick' else 6000)
     yield from unicode_ws_cases(rng, 500 if tier == 'quick' else 6000)
     yield from multiline_cases(rng, 500 if tier == 'quick' else 6000)
@@ -357,7 +386,9 @@ def impl(c):
     su = _su()
     op = c['op']
     if op == 'mask':
-        try: return su.mask_password(case_msg(c), c['secret'])
+        try:
+            if c.get('default_secret'): return su.mask_password(case_msg(c))
+            return su.mask_password(case_msg(c), c['secret'])
         except Exception as e: return 'EXN:' + type(e).__name__
     if op == 'zone':
         return 'K12:%s K14:%s' % (zone_K12(c['msg']), zone_K14(c['msg']))
@@ -397,6 +428,8 @@ def oracle(c, io):
                 if not isinstance(s, str) and s[1] and s[1] in io and s[1] not in want:
                     return 'secret %r survives: mask_password(%r) = %r' % (s[1], msg, io)
             return 'characters outside the value changed (or the value was not replaced exactly): mask_password(%r) = %r, expected %r' % (msg, io, want)
+        if (c['secret'] == '' or c['secret'].isspace()) and c.get('r') in UNQUOTED:
+            return None      # idempotence not demanded: see WEAK_MASKS
         again = su.mask_password(io, c['secret'])
         if again != io:
             return 'masking the masked message changes it: %r -> %r -> %r' % (msg, io, again)
@@ -439,7 +472,7 @@ def search(rng, budget):
         for c in many_systematic(rng):
             n += 1
             yield c
-        for g in (overlap_cases(rng, 3000), unicode_ws_cases(rng, 1500), multiline_cases(rng, 1500)):
+        for g in (weak_mask_cases(rng, 1500), overlap_cases(rng, 3000), unicode_ws_cases(rng, 1500), multiline_cases(rng, 1500)):
             for c in g:
                 n += 1
                 yield c
@@ -457,8 +490,8 @@ RULE = ('systematic: 35 keys x 15 rendering variants x {lower, UPPER, Capitalise
 TRUSTED = ['CPython re semantics as modelled in Base/Regex.v (validated per run against re on the module\'s own compiled patterns)',
            'str.lower() table of Gen/Unicode.v (final-sigma context rule not modelled: irrelevant to ASCII keys)',
            'replacement-template processing of re.sub modelled for secrets without a backslash only']
-ASSUMPTIONS = ['mask strings: non-empty, no whitespace/quote/=/</backslash, containing no sanitize key (an empty or space-containing mask makes '
-               'masking non-idempotent: password=abc def -> password= def -> password=; recorded as an observation in notes/C04.md)',
+ASSUMPTIONS = ['mask strings: no quote/=/</backslash, containing no sanitize key; empty and white-space masks are judged on every rendering for "exactly the value is replaced", '
+               'and for idempotence on all but the bare / --k / k --flag forms (there password=abc def -> password= def -> password= on the unchanged tree)',
                'neutral surrounding text: whitespace-separated words without quotes or sanitize keys',
                'universal whole-function theorems cover one secret per message under the stated side conditions; several secrets per message: bounded + oracle']
 
